@@ -27,6 +27,9 @@ type Line struct {
 	Strays  int   `json:"strays,omitempty"`  // responses with ids that were never issued
 	Batch   bool  `json:"batch"`             // send as a JSON array even if it holds one element
 	ErrResp bool  `json:"err_resp,omitempty"` // answer with a JSON-RPC error instead of a result
+	// Decoy: every response of the line also carries members whose names differ from "id" / "result" only
+	// in letter case, naming ANOTHER outstanding call (they are unknown members and must be ignored).
+	Decoy bool `json:"decoy,omitempty"`
 }
 
 type WireScript struct {
@@ -49,6 +52,7 @@ func genWire(rt *rapid.T) WireScript {
 			Strays:  rapid.SampledFrom([]int{0, 0, 0, 1}).Draw(rt, "strays"),
 			Batch:   rapid.Bool().Draw(rt, "batch"),
 			ErrResp: rapid.IntRange(0, 5).Draw(rt, "err") == 0,
+			Decoy:   rapid.IntRange(0, 3).Draw(rt, "decoy") == 0,
 		}
 		s.Lines = append(s.Lines, l)
 	}
@@ -212,6 +216,21 @@ func runWireInBubble(s WireScript) (res vt.Result) {
 			} else {
 				elems = append(elems, fmt.Sprintf(`{"jsonrpc":"2.0","id":%s,"result":{"roots":[],"_meta":{"p":{"answer":%d}}}}`, idOf[k], k))
 				answered[k] = "result"
+			}
+		}
+		if l.Decoy {
+			// the decoy names a call that is still outstanding and not answered on this line, if any
+			other := ""
+			for k := 0; k < s.N; k++ {
+				if answered[k] == "" && idOf[k] != "" {
+					other = idOf[k]
+				}
+			}
+			if other != "" {
+				for i := range elems {
+					elems[i] = strings.TrimSuffix(elems[i], "}") + fmt.Sprintf(`,"ID":%s,"Id":%s,"Result":{"decoy":true},"METHOD":"ping"}`, other, other)
+				}
+				res.Class("responses_with_case_variant_decoy_members")
 			}
 		}
 		for i := 0; i < l.Notes; i++ {
